@@ -4,6 +4,7 @@ import (
 	"context"
 	"fmt"
 	"sync"
+	"sync/atomic"
 	"time"
 
 	gerrors "github.com/acquirecloud/golibs/errors"
@@ -27,6 +28,8 @@ type LeaseScenario struct {
 	Renewals int    `json:"renewals,omitempty"`  // death: number of successful renewals before the death
 	After    bool   `json:"after,omitempty"`     // unlockrace: the renewal in flight is applied before Unlock runs
 	Same     bool   `json:"same,omitempty"`      // handoff: the second tenure is on the same Locker object (else on another provider's)
+	DelayPct int    `json:"delay_pct,omitempty"` // hold: every renewal call takes this % of the lease to reach the storage
+	Waiters  int    `json:"waiters,omitempty"`   // death: number of lockers parked in Lock() when the holder dies (default 1)
 	Wait10   int    `json:"wait10,omitempty"`    // waithold: the second locker waits this many tenths of a lease in Lock() before it gets the lock
 	OnlyExcl bool   `json:"only_excl,omitempty"` // waithold: judge mutual exclusion only (C01), not the stored record (C05)
 }
@@ -111,6 +114,7 @@ func runHold(s LeaseScenario) (info LeaseInfo, v *vstat.Violation, exact bool) {
 	for _, k := range s.FailCas {
 		fa.FailCas(k)
 	}
+	fa.CasDelay = L * time.Duration(s.DelayPct) / 100
 	pa, pb := newProvider(fa, L), newProvider(fb, L)
 	defer pa.Shutdown()
 	defer pb.Shutdown()
@@ -185,17 +189,38 @@ func runDeath(s LeaseScenario) (info LeaseInfo, v *vstat.Violation, exact bool) 
 	a.Lock()
 	defer a.Unlock() // its Delete fails (dead storage); only frees the local state
 
+	nw := s.Waiters
+	if nw < 1 {
+		nw = 1
+	}
 	type res struct {
 		err error
 		at  time.Time
 	}
-	done := make(chan res, 1)
-	bctx, cancel := context.WithTimeout(ctx, 4*L+10*time.Second)
+	done := make(chan res, nw)
+	bctx, cancel := context.WithTimeout(ctx, time.Duration(4+nw)*L+10*time.Second)
 	defer cancel()
-	go func() {
-		err := b.LockWithCtx(bctx)
-		done <- res{err, time.Now()}
-	}()
+	var inCS atomic.Int32
+	var twoHolders atomic.Pointer[vstat.Violation]
+	for i := 0; i < nw; i++ {
+		bl := b
+		if i > 0 {
+			bl = newProvider(gated.NewFaulty(inner), L).NewLocker("lease")
+		}
+		go func(i int) {
+			err := bl.LockWithCtx(bctx)
+			at := time.Now()
+			if err == nil {
+				if n := inCS.Add(1); n != 1 {
+					twoHolders.CompareAndSwap(nil, vstat.V("lease:two-holders-after-death", "lease %v: after the holder died, waiter %d acquired the lock while %d other waiter(s) were holding it", L, i, n-1))
+				}
+				time.Sleep(3 * L / 10)
+				inCS.Add(-1)
+				bl.Unlock()
+			}
+			done <- res{err, at}
+		}(i)
+	}
 	// wait for the requested number of successful renewals, then for the phase inside the cycle
 	deadline := time.Now().Add(time.Duration(s.Renewals+2)*L + 5*time.Second)
 	for {
@@ -229,21 +254,27 @@ func runDeath(s LeaseScenario) (info LeaseInfo, v *vstat.Violation, exact bool) 
 		return info, vstat.V("lease:record-without-expiry", "the lock record has no expiration, a dead holder would keep the lock forever"), true
 	}
 	exp := *r.ExpiresAt
-	select {
-	case got := <-done:
-		if got.err != nil {
-			return info, vstat.V("lease:waiter-failed", "lease %v: the waiting LockWithCtx returned %v after the holder's death", L, got.err), false
+	for i := 0; i < nw; i++ {
+		select {
+		case got := <-done:
+			if got.err != nil {
+				return info, vstat.V("lease:waiter-failed", "lease %v: a waiting LockWithCtx returned %v after the holder's death", L, got.err), false
+			}
+			if got.at.Before(exp) {
+				return info, vstat.V("lease:dropped-early", "lease %v: a waiter acquired the lock %v BEFORE the expiration %v of the dead holder's record (the record was dropped early)",
+					L, exp.Sub(got.at), exp.Format("15:04:05.000000")), true
+			}
+			if i == 0 {
+				if late := got.at.Sub(exp); late > L+2*time.Second {
+					return info, vstat.V("lease:late-release", "lease %v: the first waiter acquired the lock %v after the record's expiration (holder died %v before it)", L, late, exp.Sub(killAt)), false
+				}
+			}
+		case <-time.After(time.Until(exp) + time.Duration(1+nw)*L + 4*time.Second):
+			return info, vstat.V("lease:never-released", "lease %v: %v after the expiration of the dead holder's record only %d of %d waiters have had the lock", L, time.Since(exp), i, nw), false
 		}
-		defer b.Unlock()
-		if got.at.Before(exp) {
-			return info, vstat.V("lease:dropped-early", "lease %v: the waiter acquired the lock %v BEFORE the expiration %v of the dead holder's record (the record was dropped early)",
-				L, exp.Sub(got.at), exp.Format("15:04:05.000000")), true
-		}
-		if late := got.at.Sub(exp); late > L+2*time.Second {
-			return info, vstat.V("lease:late-release", "lease %v: the waiter acquired the lock %v after the record's expiration (holder died %v before it)", L, late, exp.Sub(killAt)), false
-		}
-	case <-time.After(time.Until(exp) + L + 4*time.Second):
-		return info, vstat.V("lease:never-released", "lease %v: %v after the expiration of the dead holder's record the waiter still has not acquired the lock", L, time.Since(exp)), false
+	}
+	if v := twoHolders.Load(); v != nil {
+		return info, v, true
 	}
 	return info, nil, false
 }
